@@ -128,7 +128,7 @@ func GenComposeRequests(t *rapid.T, sh *Shape, other *Shape) []Request {
 			assoc = "right"
 		}
 		reqs = append(reqs, Request{Prop: "C04", API: "join", Expect: "focus", NT: len(c) >= 3 || promoted(c), Classes: []string{fmt.Sprintf("join-depth=%d", len(c)), "assoc=" + assoc},
-			Extra: map[string]any{"hops": hops, "assoc": assoc}})
+			Extra: map[string]any{"hops": hops, "assoc": assoc, "shared": k < 2}})
 	}
 	// converting lenses on scalar fields
 	for k := 0; k < 6 && len(nameOK) > 0; k++ {
@@ -224,6 +224,12 @@ func GenComposeRequests(t *rapid.T, sh *Shape, other *Shape) []Request {
 			}
 			reqs = append(reqs, Request{Prop: "C04", API: "morphism", Expect: "focus", NT: len(nonnil) >= 2 && nils >= 1, Classes: []string{fmt.Sprintf("isos=%d", len(sel)), fmt.Sprintf("nil-entries=%d", min(nils, 2))},
 				Extra: map[string]any{"other": other.Root, "pairs": pairs, "list": list}})
+			if len(sel) >= 3 {
+				// two morphisms that extend ONE base morphism (built from a slice with spare capacity) by different isos:
+				// building the second must not change the first
+				reqs = append(reqs, Request{Prop: "C04", API: "morphnest", Expect: "focus", NT: true, Classes: []string{"nested-morphism-shared-base"},
+					Extra: map[string]any{"other": other.Root, "pairs": pairs, "base": len(sel) - 2, "withNil": rapid.Bool().Draw(t, "withNil")}})
+			}
 			// a single Iso as well
 			reqs = append(reqs, Request{Prop: "C04", API: "morphism", Expect: "focus", NT: false, Classes: []string{"single-iso"},
 				Extra: map[string]any{"other": other.Root, "pairs": pairs[:1], "list": []int{0}, "single": true}})
@@ -336,8 +342,13 @@ func emitCompose(w func(string, ...any), sh *Shape, l []Entry, r Request) bool {
 			prefix = append(prefix, asStrings(h["path"])...)
 			loose = append(loose, fmt.Sprintf("optcheck.L(&%s)", selector(prefix)))
 		}
-		w("\t\toptcheck.Composed(h, %q, %s, func(p *%s) *%s { return &%s }, func(p *%s) []optcheck.Loose { return []optcheck.Loose{%s} })\n",
-			expr, expr, S, last, selector(full), S, strings.Join(loose, ", "))
+		w("\t\tjoined := %s\n", expr)
+		w("\t\toptcheck.Composed(h, %q, joined, func(p *%s) *%s { return &%s }, func(p *%s) []optcheck.Loose { return []optcheck.Loose{%s} })\n",
+			expr, S, last, selector(full), S, strings.Join(loose, ", "))
+		if r.Extra["shared"] == true {
+			w("\t\toptcheck.Shared(h, %q, joined, func(p *%s) *%s { return &%s }, func(p *%s) []optcheck.Loose { return []optcheck.Loose{%s} })\n",
+				expr, S, last, selector(full), S, strings.Join(loose, ", "))
+		}
 		return true
 	case "bimap", "setter":
 		typ, key, path := r.Types[0], r.Names[0], selector(l[r.Foci[0]].Path)
@@ -422,6 +433,36 @@ func emitCompose(w func(string, ...any), sh *Shape, l []Entry, r Request) bool {
 		} else {
 			w("\t\toptcheck.MapLens(h, \"NewLensM[map[string]int]\", optics.NewLensM[map[string]int, string, int](%q), %q)\n", key, key)
 		}
+		return true
+	case "morphnest":
+		T := fmt.Sprint(r.Extra["other"])
+		pairs := asMaps(r.Extra["pairs"])
+		nb := asInt(r.Extra["base"])
+		pairLit := func(p map[string]any) string {
+			return fmt.Sprintf("{Src: func(p *%s) unsafe.Pointer { return unsafe.Pointer(&%s) }, Dst: func(p *%s) unsafe.Pointer { return unsafe.Pointer(&%s) }, Type: optcheck.T[%s](), Scramble: func(rt *rapid.T, p *%s) { %s = optcheck.Draw[%s](rt) }}",
+				S, selector(asStrings(p["spath"])), T, selector(asStrings(p["tpath"])), p["type"], S, selector(asStrings(p["spath"])), p["type"])
+		}
+		for i, p := range pairs {
+			ty := p["type"]
+			w("\t\tvar sa%d optics.Lens[%s, %s]\n\t\tvar ta%d optics.Lens[%s, %s]\n", i, S, ty, i, T, ty)
+			w("\t\tif !optcheck.MustNotPanic(h, \"ForProduct1 (iso %d)\", func() { sa%d = optics.ForProduct1[%s, %s](%q); ta%d = optics.ForProduct1[%s, %s](%q) }) {\n\t\t\treturn\n\t\t}\n", i, i, S, ty, p["skey"], i, T, ty, p["tkey"])
+			w("\t\tiso%d := optics.Iso(sa%d, ta%d)\n", i, i, i)
+		}
+		var baseIsos, basePairs []string
+		for i := 0; i < nb; i++ {
+			baseIsos = append(baseIsos, fmt.Sprintf("iso%d", i))
+			basePairs = append(basePairs, pairLit(pairs[i]))
+		}
+		w("\t\tlist := make([]optics.Isomorphism[%s, %s], 0, 8) // spare capacity behind the spread slice\n\t\tlist = append(list, %s)\n", S, T, strings.Join(baseIsos, ", "))
+		w("\t\tbase := optics.Morphism(list...)\n")
+		second := fmt.Sprintf("iso%d", nb+1)
+		if r.Extra["withNil"] == true {
+			second = "nil, " + second
+		}
+		w("\t\tmA := optics.Morphism[%s, %s](base, iso%d)\n\t\tmB := optics.Morphism[%s, %s](base, %s)\n", S, T, nb, S, T, second)
+		w("\t\toptcheck.Morph[%s, %s](h, \"Morphism(base, isoA) after Morphism(base, isoB) was built\", mA, []optcheck.Pair[%s, %s]{%s, %s})\n", S, T, S, T, strings.Join(basePairs, ", "), pairLit(pairs[nb]))
+		w("\t\toptcheck.Morph[%s, %s](h, \"Morphism(base, isoB)\", mB, []optcheck.Pair[%s, %s]{%s, %s})\n", S, T, S, T, strings.Join(basePairs, ", "), pairLit(pairs[nb+1]))
+		w("\t\toptcheck.Morph[%s, %s](h, \"the shared base morphism\", base, []optcheck.Pair[%s, %s]{%s})\n", S, T, S, T, strings.Join(basePairs, ", "))
 		return true
 	case "morphism":
 		T := fmt.Sprint(r.Extra["other"])
